@@ -36,6 +36,8 @@ claims = {
          "descriptor-bounded answers; final gqlparser.LoadSchema native; gqlparser's formatter interpreted"),
  "C16": ("DESIGN.md §4 C16", "The gateway's introspection resolver (resolveSchema/Type/Field/InputValue/Directive) through the real handler on a merged scenario schema: for each of 9 types, __type(name:) by literal and by variable equals the entry of __schema.types, and the entry is compared with the ast.Schema used for validation (kind, fields, wrappers, arguments, defaults, deprecations, possible types, input fields, enum values, spec null-ness per kind); plus the round trip through another gateway's introspectRemoteSchema.",
          "one scenario schema; gqlparser native; JSON = abstract codec"),
+ "C17": ("DESIGN.md §4 C17", "newSubscriptionEntry (real planner), Listen, prepareResponse, the executorFn closure (FindInsertionPoints + real executor + scrub) and the real (*MultiOpQueryer).Subscribe goroutines over the websocket model: 1-2 subscriptions x 0-2 (3) events each drawn from {entity h1, entity h2, upstream error payload}; the client's data frames per subscription id must be exactly the upstream's events, in order, each once, equal to the reference evaluation of the client's operation on the merged schema (stitched field of the other service included, helper id removed), errors forwarded with their message, no frame under a foreign id. Thorough adds every interleaving for one subscription with two events.",
+         "websocket library = harness model; upstream evaluates the forwarded subscription (validated natively); quick tier: canonical schedule"),
  "C18": ("DESIGN.md §4 C18", "The real subscriptionHandler message loop, subscriptionDict.Clean(All), subscriptionEntry.Listen/Close, sendHeartbeat, newSubscriptionEntry (real planner) and the goroutines of (*MultiOpQueryer).Subscribe under EVERY interleaving (stateful search, partial-order reduction at visible operations, race detector): client scripts (start / stop / stop unknown / terminate / malformed / unknown type / second start, then abrupt disconnect), upstream scripts (0-1 events then complete / error frame / disconnect / stays open), heartbeat ticks; obligations: no unrecovered panic, no fatal error, no deadlock, no goroutine alive once the handler returned, every frame contiguous and well-formed.",
          "websocket library = harness connection model (frame = two writes); upgrade/dial succeed; engine's model of channels, select, Mutex/TryLock, defer/recover; quick: 1 client message, thorough: 2"),
  "C20": ("DESIGN.md §4 C20", "AsyncMapReduce[int,int,[]int] under every interleaving (stateful search, no pre-emption bound) for n<=3 (quick) / 4 (thorough), failure bit per item symbolic, with a happens-before race detector, deadlock and goroutine-leak detection.",
